@@ -37,7 +37,7 @@ ToSet(q) == { q[i] : i \in DOMAIN q }
 F(ok, prop, what, detail) == IF ok THEN {} ELSE { [p |-> prop, w |-> what, d |-> detail] }
 Report(fs) == IF fs = {} THEN TRUE ELSE PrintT(<<"FAIL", l, ToJson(fs)>>)
 NoPos == [board |-> EmptyBoard, stm |-> White, cast |-> {}, ep |-> 8]
-NoGo == [t |-> 0, params |-> [none |-> 0], infotime |-> -1, stopped |-> FALSE, fresh |-> FALSE]
+NoGo == [t |-> 0, params |-> [none |-> 0], infotime |-> -1, stopped |-> FALSE, fresh |-> FALSE, quit |-> FALSE]
 NoAcc == [depths |-> << >>, scores |-> << >>, pvs |-> << >>]
 Tolerance == 2500   \* ms, driver clock: wide enough for a loaded machine
 
@@ -114,7 +114,7 @@ Cmd ==
                           ELSE {}))
                /\ IF accepted
                   THEN /\ pending' = pending + 1 /\ sroot' = root /\ root' = NoPos
-                       /\ go' = [t |-> e.t, params |-> e.params, infotime |-> it, stopped |-> FALSE, fresh |-> waiting.fresh]
+                       /\ go' = [t |-> e.t, params |-> e.params, infotime |-> it, stopped |-> FALSE, fresh |-> waiting.fresh, quit |-> FALSE]
                        /\ waiting' = [waiting EXCEPT !.acc = NoAcc, !.fresh = FALSE]
                        /\ rootrec' = << >>
                   ELSE UNCHANGED <<rootrec, pending, sroot, root, go, waiting>>
@@ -136,8 +136,9 @@ Cmd ==
        [] e.kind = "uci" ->
             /\ Report(common \cup F(Has(e, "uciok") => e.uciok, "C14", "uci was not answered with uciok", [after |-> e.text]))
             /\ UNCHANGED <<rootrec, pending, root, sroot, go, waiting>>
-       [] e.kind = "quit" ->      \* the GUI gives up on whatever is still being searched
-            /\ Report(common) /\ pending' = 0 /\ UNCHANGED <<rootrec, root, sroot, go, waiting>>
+       [] e.kind = "quit" ->      \* the GUI gives up on whatever is still being searched: the pending go may or may not be
+                                  \* answered before the process ends (a bestmove that does arrive is still judged)
+            /\ Report(common) /\ go' = [go EXCEPT !.quit = TRUE] /\ UNCHANGED <<rootrec, pending, root, sroot, waiting>>
        [] OTHER -> Report(common) /\ UNCHANGED <<rootrec, pending, root, sroot, go, waiting>>
   /\ l' = l + 1
 
@@ -218,7 +219,7 @@ Exit ==
 End ==
   /\ IsEv("end")
   /\ Report(F(~Rec[l].panic, "C14", "the engine panicked", [stderr |-> Rec[l].stderr])
-            \cup F(pending = 0, "C14", "an accepted go was never answered with a bestmove", [pending |-> pending]))
+            \cup F(pending = 0 \/ (go.quit /\ pending = 1), "C14", "an accepted go was never answered with a bestmove", [pending |-> pending]))
   /\ UNCHANGED <<rootrec, pending, root, sroot, go, waiting>> /\ l' = l + 1
 
 Next == Session \/ Cmd \/ Best \/ Pv \/ Depth \/ Score \/ Waited \/ Burst \/ Exit \/ End
